@@ -202,10 +202,23 @@ class Canvas:
 
         rank_str = rank.lower()
         if spacetime.get_style(rank) == "coord":
+            # The loop over a flattened innermost rank binds one variable per
+            # flattened rank rather than a variable for the rank itself
+            iter_ranks = self.program.get_loop_order().get_iter_ranks(rank)
+
             # Check if we already have the absolute coordinate
             offset = spacetime.get_offset(rank)
             if offset is None:
-                return EVar(rank_str)
+                if len(iter_ranks) == 1:
+                    return EVar(rank_str)
+
+                return ETuple([EVar(iter_rank.lower())
+                               for iter_rank in iter_ranks])
+
+            if len(iter_ranks) > 1:
+                raise ValueError(
+                    "Cannot display the relative coordinate of flattened rank " +
+                    rank)
 
             # rank - offset
             return EBinOp(EVar(rank_str), OSub(), EVar(offset.lower()))
